@@ -19,7 +19,7 @@ func init() {
 		Title: "Delimited and fixed-length fields carry exactly the input text",
 		Explanation: "Structural necessary conditions, decided on the resolved program: " +
 			"R06a no transformation between the library reader and the node: the data of every text node created in the csv/fixed-length reader packages is resolved backwards (SSA value flow with access paths: Phi, conversions between string and []byte, indexing, sub-slicing, append/copy, reader struct fields matched field-based over the whole repository, parameters, helper results) and must be an element of the []string returned by encoding/csv.Reader.Read resp. (a sub-slice of) the []byte returned by the line source (ios.ByteReadLine), or the empty string; any call, concatenation or lookup on the way is a violation; " +
-			"R06b csv decoder configuration: every csv.Reader the reader packages construct gets, on every path, Comma = first rune ([]rune(s)[0] or utf8.DecodeRuneInString(s)) of the FileDecl field tagged \"delimiter\" and a constant negative FieldsPerRecord; TrimLeadingSpace, LazyQuotes and Comment are never set anywhere in the library; " +
+			"R06b csv decoder configuration: every csv.Reader the reader packages construct gets, on every path, Comma = first rune ([]rune(s)[0] or utf8.DecodeRuneInString(s)) of the FileDecl field tagged \"delimiter\" (the rune is followed backwards through option structs, helper parameters and helper results to the expressions that compute it; each must have that shape) and a constant negative FieldsPerRecord; TrimLeadingSpace, LazyQuotes and Comment are never set anywhere in the library; " +
 			"R06c header verification (old csv reader): on the first Read (flag false) every path to the record fetch passes through the header check (the callee that reads the field tagged header_row_index) and through the false edge of the test of its error; on the true edge the same error is returned with a nil node and nothing is fetched; the flag is only set to true after a header check; the header check can only return nil, io.EOF or the reader's fatal type; " +
 			"R06d only truly empty lines are skipped: on every re-read cycle of a line source the only condition that depends on the line is len(line) compared with 0 (or the equivalent <1 / >=1); " +
 			"R06e line selection: in readers whose column declaration has line_index/line_pattern, the call that extracts a column's text is dominated by the true edge of a line-selector call (a bool method of the same column declaration that reads those fields) and receives structurally the same line (same slice, same index value) and record buffer as that selector; " +
@@ -477,7 +477,7 @@ func c06RuleB(c *core.Ctx, r *c06roles, prov *c08Prov) {
 				case !onPath[comma[0].Instr]:
 					c.Bad("R06b", key, comma[0].Pos, "the delimiter is not set on every path from the construction of the decoder")
 				default:
-					ok, why := c06FirstRuneOfDelimiter(prov, comma[0].Val)
+					ok, why := c06DelimiterRune(prov, comma[0])
 					c.Check(ok, "R06b", key, comma[0].Pos, "first rune of FileDecl delimiter", "the delimiter handed to the csv decoder is not the first rune of the schema's delimiter: "+why)
 				}
 				// FieldsPerRecord
